@@ -77,14 +77,32 @@ static void family(rng& g, bool thorough, bool dists)
         c.plan = make_plan(g, 31);
         run_vegas<T>(c, script_engine(script_registry::add(sc)), pdf, std::vector<std::size_t>{15}, T(1.5));
     }
+    // a user grid with empty bins (both ends equal) and a bin that is one unit in the last place wide: its points are still inside it
+    {
+        hep::vegas_pdf<T> pdf(2, 8);
+        for (std::size_t j = 0; j != 2; ++j)
+        {
+            T const lefts[7] = {T(0.1), T(0.1), T(0.2), std::nextafter(T(0.2), T(1)), T(0.45), T(0.45), T(0.9)};
+            for (std::size_t b = 1; b != 8; ++b) pdf.set_bin_left(j, b, lefts[b - 1]);
+        }
+        std::vector<std::uint64_t> sc;
+        for (int i = 0; i != 640; ++i) sc.push_back(g.next());
+        call_ctx<T> c;
+        c.cfg.kind = "vegas";
+        c.dists = dists;
+        c.plan = make_plan(g, 31);
+        run_vegas<T>(c, script_engine(script_registry::add(sc)), pdf, std::vector<std::size_t>{300}, T(1.5));
+    }
     // (families 4..6: weights that are not dyadic, followed by disabled channels: the partial sums are rounded, the selector's
     //  largest value below one must still end up in the last *enabled* channel)
-    for (int fam = 0; fam != 7; ++fam)
+    for (int fam = 0; fam != 8; ++fam)
     {
         std::vector<T> w = fam == 0 ? std::vector<T>{T(2), T(1), T(1), T(0)}
             : (fam == 1 ? std::vector<T>{T(1), T(1)} : (fam == 2 ? std::vector<T>{T(0), T(0), T(3), T(0), T(1)} : (fam == 3 ? std::vector<T>{T(1)}
             : (fam == 4 ? std::vector<T>{T(0.7), T(0.2), T(0.1), T(0)} : (fam == 5 ? std::vector<T>{T(0.1), T(0.2), T(0.3), T(0.4), T(0), T(0)}
-            : std::vector<T>{T(1), T(0), T(1), T(1), T(0)})))));
+            : (fam == 6 ? std::vector<T>{T(1), T(0), T(1), T(1), T(0)}
+            // (family 7: a channel whose weight is tiny, but not zero, is an enabled channel)
+            : std::vector<T>{std::numeric_limits<T>::epsilon() / T(4), T(0), T(1), T(1)}))))));
         call_ctx<T> c;
         c.cfg.kind = "mc";
         c.cfg.d = 1 + (std::size_t) (fam % 2);
